@@ -31,3 +31,7 @@ OBLIGATIONS = [
 
 for _o in OBLIGATIONS:
     if _o['id'].startswith('C02.frame'): _o['slicing'] = True
+# "replace defined only leaves unlisted compositions untouched; replace clears them": how each family's uniform composition model applies its operation
+# to listed and unlisted compositions is proved in the C05 harnesses - the same obligations are run here
+import C05 as _C05
+OBLIGATIONS = OBLIGATIONS + [dict(o, id=o['id'].replace('C05.', 'C02.modelop.')) for o in _C05.OBLIGATIONS if o['id'] in ('C05.area.uniformC', 'C05.line.uniformC', 'C05.plume.uniformC')]
